@@ -1,1 +1,365 @@
-(* C16 stub: to be written *)
+(* Executable model of epgpy.statematrix.ArrayCollection as a state machine
+   (statematrix.py, class ArrayCollection), faithful to the code as written:
+   order-dependent caches (_shape, _shapes, _axes, _default), check_shape's slice,
+   the in-place branch of update, the stale axes cache after pop, one linked child.
+   Names of arrays and of named axes are natural numbers.
+   Domain restriction of the model (returns EUnsupported): arrays with fewer
+   dimensions than the non-ellipsis layout items; a second link. *)
+From Coq Require Import List ZArith Lia Bool Arith.
+From EPG Require Import Scalar State NdArray.
+Import ListNotations.
+
+Inductive litem : Type := LEll | LFix (n : nat) | LName (k : nat) | LFree.
+Definition layout := list litem.
+
+Inductive err : Type := EValue | EKey | EIndex | EUnsupported.
+Inductive res (A : Type) : Type := Ok (a : A) | Err (e : err).
+Arguments Ok {A}. Arguments Err {A}.
+
+Record entry : Type := mkE { e_lay : layout; e_arr : nd }.
+
+Record coll : Type := mkC {
+  c_app : bool;                          (* true: expand_axis = -1 (append); false: 0 (prepend) *)
+  c_arrays : list (nat * entry);         (* _arrays + _layouts, insertion order *)
+  c_shapes : list (nat * list nat);      (* _shapes *)
+  c_axes : list (nat * nat);             (* _axes (first match = dict value) *)
+  c_default : list nat;                  (* _default *)
+  c_shape : list nat }.                  (* _shape *)
+
+(* ---- association lists (python dicts observed through lookups) *)
+Fixpoint lookup {A} (k : nat) (m : list (nat * A)) : option A :=
+  match m with
+  | [] => None
+  | (k', v) :: m' => if k =? k' then Some v else lookup k m'
+  end.
+Fixpoint set_assoc {A} (k : nat) (v : A) (m : list (nat * A)) : list (nat * A) :=
+  match m with
+  | [] => [(k, v)]
+  | (k', v') :: m' => if k =? k' then (k, v) :: m' else (k', v') :: set_assoc k v m'
+  end.
+Definition del_assoc {A} (k : nat) (m : list (nat * A)) : list (nat * A) :=
+  filter (fun p => negb (k =? fst p)) m.
+
+(* ---- layouts *)
+Definition is_ell (x : litem) : bool := match x with LEll => true | _ => false end.
+Fixpoint ell_index (l : layout) : nat :=
+  match l with [] => 0 | x :: l' => if is_ell x then 0 else S (ell_index l') end.
+Definition count_ell (l : layout) : nat := length (filter is_ell l).
+Definition is_name (ax : nat) (x : litem) : bool := match x with LName k => k =? ax | _ => false end.
+Fixpoint name_index (ax : nat) (l : layout) : nat :=
+  match l with [] => 0 | x :: l' => if is_name ax x then 0 else S (name_index ax l') end.
+
+(* position in an array of rank ndim of the layout item number i (not the ellipsis) *)
+Definition pos_of (ndim : nat) (l : layout) (i : nat) : nat :=
+  if i <? ell_index l then i else i + ndim - length l.
+
+(* _get_named_axes: (array axis, axis name) *)
+Definition named_axes (ndim : nat) (l : layout) : list (nat * nat) :=
+  flat_map (fun i => match nth i l LFree with LName ax => [(pos_of ndim l i, ax)] | _ => [] end)
+           (seq 0 (length l)).
+
+(* normal orientation: the expand axis is at the far end *)
+Definition ori {A} (app : bool) (l : list A) : list A := if app then l else rev l.
+(* view of a shape in normal orientation, 1 beyond its rank *)
+Definition vw (app : bool) (s : list nat) (i : nat) : nat := nth i (ori app s) 1.
+(* bring a shape to rank n: unit axes added at / surplus axes removed from the expand side
+   (_get_shared_shape; the diff<0 / diff>0 branches of check_shape; expand_dims in get) *)
+Definition fit (app : bool) (n : nat) (s : list nat) : list nat := ori app (tab n (vw app s)).
+
+(* _get_shared_axes: shape[start : len(shape) - (len(layout) - start - 1)] *)
+Definition shared_axes (sh : list nat) (l : layout) : list nat :=
+  let st := ell_index l in slice st (length sh - (length l - st - 1)) sh.
+(* _get_broadcast_shape: shape[start:end] = shared *)
+Definition bshape (S : list nat) (sh : list nat) (l : layout) : list nat :=
+  let st := ell_index l in firstn st sh ++ S ++ skipn (length sh - (length l - st - 1)) sh.
+
+Definition list_max (l : list nat) : nat := fold_right Nat.max 0 l.
+
+Definition entry_shared (e : entry) : list nat := shared_axes (shp (e_arr e)) (e_lay e).
+Definition shared_list (arrs : list (nat * entry)) (dflt : list nat) : list (list nat) :=
+  map (fun p => entry_shared (snd p)) arrs ++ [dflt].
+(* _update_shape: rank = max rank; entry i = max over the aligned shared parts *)
+Definition calc_shape (app : bool) (sl : list (list nat)) : list nat :=
+  ori app (tab (list_max (map (@length nat) sl)) (fun i => list_max (map (fun s => vw app s i) sl))).
+Definition calc_shapes (S : list nat) (arrs : list (nat * entry)) : list (nat * list nat) :=
+  map (fun p => (fst p, bshape S (shp (e_arr (snd p))) (e_lay (snd p)))) arrs.
+
+Definition with_arrays (c : coll) (arrs : list (nat * entry)) (dflt : list nat) (axes : list (nat * nat)) : coll :=
+  let S := calc_shape (c_app c) (shared_list arrs dflt) in
+  mkC (c_app c) arrs (calc_shapes S arrs) axes dflt S.
+
+(* get_named_axes(ignore): last writer wins = first match of the reversed list *)
+Definition entry_axes (e : entry) : list (nat * nat) :=
+  map (fun p => (snd p, nth (fst p) (shp (e_arr e)) 0)) (named_axes (length (shp (e_arr e))) (e_lay e)).
+Definition gna (arrs : list (nat * entry)) (ign : option nat) : list (nat * nat) :=
+  rev (flat_map (fun p => match ign with
+                          | Some k => if k =? fst p then [] else entry_axes (snd p)
+                          | None => entry_axes (snd p) end) arrs).
+
+Definition empty_coll (app : bool) (dflt : list nat) : coll :=
+  with_arrays (mkC app [] [] [] dflt []) [] dflt [].
+(* ArrayCollection(expand_axis=...) *)
+Definition init (app : bool) : coll := empty_coll app [1].
+
+(* ---- check_shape *)
+Definition dim_ok (d1 d2 : nat) : bool := (d1 =? 1) || (d1 =? d2) || (d2 =? 1).
+Definition check_named (axes : list (nat * nat)) (sh : list nat) (l : layout) : bool :=
+  forallb (fun i =>
+     let d := nth (pos_of (length sh) l i) sh 0 in
+     match nth i l LFree with
+     | LFix n => d =? n
+     | LName ax => match lookup ax axes with Some k => d =? k | None => true end
+     | _ => true
+     end) (seq 0 (length l)).
+Definition check_common (c : coll) (sh : list nat) (l : layout) : bool :=
+  let common := slice (ell_index l) (length sh + 1 - length l) sh in
+  forallb2 dim_ok (fit (c_app c) (length (c_shape c)) common) (c_shape c).
+Definition check_shape (c : coll) (sh : list nat) (l : layout) (ign : option nat) : bool :=
+  check_named (gna (c_arrays c) ign) sh l && check_common c sh l.
+
+(* ---- _expand_and_broadcast *)
+Definition expand_and_broadcast (c : coll) (a : nd) (l : layout) (bcast : bool) : res nd :=
+  let S := c_shape c in
+  let sh := shp a in
+  let ax := ell_index l in
+  let nsh := length sh + 1 - length l in
+  let E := firstn ax sh ++ fit (c_app c) (length S) (slice ax (ax + nsh) sh) ++ skipn (ax + nsh) sh in
+  let T := firstn ax E ++ S ++ skipn (ax + length S) E in
+  if bcast && negb (shape_eqb T E)
+  then match broadcast_to (mkNd E (dat a)) T with Some r => Ok r | None => Err EValue end
+  else Ok (mkNd E (dat a)).
+
+Definition get (c : coll) (name : nat) (bcast : bool) : res (option nd) :=
+  match lookup name (c_arrays c) with
+  | None => Ok None
+  | Some e =>
+      match lookup name (c_shapes c) with
+      | Some s =>
+          if shape_eqb (shp (e_arr e)) s then Ok (Some (e_arr e))
+          else match expand_and_broadcast c (e_arr e) (e_lay e) bcast with
+               | Ok r => Ok (Some r) | Err x => Err x end
+      | None => Err EKey
+      end
+  end.
+
+(* ---- set *)
+Definition resize_named (axes : list (nat * nat)) (a : nd) (l : layout) : nd :=
+  fold_left (fun arr p =>
+     let size := nth (fst p) (shp arr) 0 in
+     match lookup (snd p) axes with
+     | Some k => if size =? k then arr else resize_array arr (Z.of_nat k - Z.of_nat size) (fst p) 0%Z
+     | None => arr end) (named_axes (length (shp a)) l) a.
+
+Definition set (c : coll) (name : nat) (a : nd) (lay : option layout) (rsz chk : bool) : res coll :=
+  let l := match lay with
+           | Some l => l
+           | None => match lookup name (c_arrays c) with Some e => e_lay e | None => [LEll] end
+           end in
+  if negb (count_ell l =? 1) then Err EValue
+  else if length (shp a) + 1 <? length l then Err EUnsupported
+  else
+    let a1 := if rsz then resize_named (gna (c_arrays c) (Some name)) a l else a in
+    if chk && negb (check_shape c (shp a1) l (Some name)) then Err EValue
+    else
+      let arrs := set_assoc name (mkE l a1) (c_arrays c) in
+      Ok (with_arrays c arrs (c_default c) (gna arrs None)).
+
+(* ---- update: in-place branch when the value broadcasts into the raw array *)
+Definition set_data (name : nat) (d : list Z) (arrs : list (nat * entry)) : list (nat * entry) :=
+  map (fun p => if name =? fst p then (fst p, mkE (e_lay (snd p)) (mkNd (shp (e_arr (snd p))) d)) else p) arrs.
+
+(* second component: did the call run _update_shape (propagation to linked collections) *)
+Definition update (c : coll) (name : nat) (v : nd) (rsz : bool) : res (coll * bool) :=
+  match lookup name (c_arrays c) with
+  | None => Err EKey
+  | Some e =>
+      match shp (e_arr e) with
+      | [] => Err EIndex
+      | _ =>
+          match assign_to v (shp (e_arr e)) with
+          | Some d => Ok (mkC (c_app c) (set_data name d (c_arrays c)) (c_shapes c) (c_axes c)
+                              (c_default c) (c_shape c), false)
+          | None => match set c name v None rsz false with
+                    | Ok c' => Ok (c', true) | Err x => Err x end
+          end
+      end
+  end.
+
+(* ---- pop: _axes is not refreshed *)
+Definition pop (c : coll) (name : nat) : coll * option nd :=
+  match lookup name (c_arrays c) with
+  | None => (c, None)
+  | Some e => (with_arrays c (del_assoc name (c_arrays c)) (c_default c) (c_axes c), Some (e_arr e))
+  end.
+
+(* ---- resize of a named axis; _shape is not recomputed, _shapes only for resized arrays *)
+Definition has_name (ax : nat) (l : layout) : bool := existsb (is_name ax) l.
+Definition resize_entry (ax : nat) (diff : Z) (cst : Z) (e : entry) : entry :=
+  let l := e_lay e in
+  if has_name ax l
+  then mkE l (resize_array (e_arr e) diff (pos_of (length (shp (e_arr e))) l (name_index ax l)) cst)
+  else e.
+Definition resize (c : coll) (ax size : nat) (cst : Z) : res coll :=
+  match lookup ax (c_axes c) with
+  | None => Err EValue
+  | Some cur =>
+      let diff := (Z.of_nat size - Z.of_nat cur)%Z in
+      if (diff =? 0)%Z then Ok c
+      else
+        let arrs := map (fun p => (fst p, resize_entry ax diff cst (snd p))) (c_arrays c) in
+        (* for name in _arrays: if ax in layout: _shapes[name] = ... (same keys in both dicts) *)
+        let shapes := map (fun q =>
+            match lookup (fst q) arrs with
+            | Some e => if has_name ax (e_lay e)
+                        then (fst q, bshape (c_shape c) (shp (e_arr e)) (e_lay e)) else q
+            | None => q end) (c_shapes c) in
+        Ok (mkC (c_app c) arrs shapes (gna arrs None) (c_default c) (c_shape c))
+  end.
+
+(* ---- expand / reduce / broadcast act on _default *)
+Definition expand (c : coll) (k : nat) : coll :=
+  let d := if c_app c then c_shape c ++ repeat 1 k else repeat 1 k ++ c_shape c in
+  with_arrays c (c_arrays c) d (c_axes c).
+
+Definition reduce (c : coll) (k : nat) : coll :=
+  let S := c_shape c in
+  let n := length S in
+  let d := if c_app c
+           then (* shape[n-k : n+1] = [] with python's negative start *)
+                firstn (if k <=? n then n - k else n + n - k) S
+           else skipn k S in
+  with_arrays c (c_arrays c) d (c_axes c).
+
+Definition broadcast (c : coll) (sh : list nat) : res coll :=
+  if check_shape c sh [LEll] None then Ok (with_arrays c (c_arrays c) sh (c_axes c)) else Err EValue.
+
+(* ---- operations on one collection *)
+Inductive bop : Type :=
+| OSet (name : nat) (a : nd) (lay : option layout) (rsz chk : bool)
+| OUpdate (name : nat) (a : nd) (rsz : bool)
+| OGet (name : nat) (bcast : bool)
+| OPop (name : nat)
+| OResize (ax size : nat) (cst : Z)
+| OExpand (k : nat)
+| OReduce (k : nat)
+| OBroadcast (sh : list nat).
+
+(* new collection, whether _update_shape ran, returned array *)
+Definition bstep (c : coll) (o : bop) : res (coll * bool * option nd) :=
+  match o with
+  | OSet name a lay rsz chk =>
+      match set c name a lay rsz chk with Ok c' => Ok (c', true, None) | Err x => Err x end
+  | OUpdate name a rsz =>
+      match update c name a rsz with Ok (c', p) => Ok (c', p, None) | Err x => Err x end
+  | OGet name b =>
+      match get c name b with Ok r => Ok (c, false, r) | Err x => Err x end
+  | OPop name =>
+      let (c', r) := pop c name in
+      Ok (c', match r with Some _ => true | None => false end, r)
+  | OResize ax size cst =>
+      match resize c ax size cst with Ok c' => Ok (c', false, None) | Err x => Err x end
+  | OExpand k => Ok (expand c k, true, None)
+  | OReduce k => Ok (reduce c k, true, None)
+  | OBroadcast sh =>
+      match broadcast c sh with Ok c' => Ok (c', true, None) | Err x => Err x end
+  end.
+
+(* ---- a collection with at most one linked child *)
+Record state : Type := mkS { main : coll; child : option coll }.
+
+Inductive op : Type :=
+| OMain (o : bop)
+| OChild (o : bop)
+| OCopy
+| OLink (app : bool).
+
+(* _update_shape of the parent: other._default = self._shape; other._update_shape() *)
+Definition follow (parent : coll) (ch : coll) : coll :=
+  with_arrays ch (c_arrays ch) (c_shape parent) (c_axes ch).
+
+(* copy(): fresh dicts with the same content; _linked is shared *)
+Definition copy (c : coll) : coll :=
+  mkC (c_app c) (c_arrays c) (c_shapes c) (c_axes c) (c_default c) (c_shape c).
+
+Definition step (s : state) (o : op) : res (state * option nd) :=
+  match o with
+  | OMain b =>
+      match bstep (main s) b with
+      | Ok (c', p, r) =>
+          Ok (mkS c' (if p then option_map (follow c') (child s) else child s), r)
+      | Err x => Err x
+      end
+  | OChild b =>
+      match child s with
+      | None => Err EUnsupported
+      | Some ch =>
+          match bstep ch b with
+          | Ok (ch', _, r) => Ok (mkS (main s) (Some ch'), r)
+          | Err x => Err x
+          end
+      end
+  | OCopy => Ok (mkS (copy (main s)) (child s), None)
+  | OLink app =>
+      match child s with
+      | Some _ => Err EUnsupported
+      | None => Ok (mkS (main s) (Some (follow (main s) (init app))), None)
+      end
+  end.
+
+(* an exception leaves the collection unchanged *)
+Definition step_state (s : state) (o : op) : state :=
+  match step s o with Ok (s', _) => s' | Err _ => s end.
+Definition run (s : state) (h : list op) : state := fold_left step_state h s.
+
+(* ---- observations (what props/c16.py records after every call) *)
+Definition get_all (c : coll) : list (nat * res (option nd)) :=
+  map (fun p => (fst p, get c (fst p) true)) (c_arrays c).
+
+Record obs : Type := mkO {
+  o_res : res (option nd);
+  o_shape : list nat;
+  o_axes : list (nat * nat);
+  o_gets : list (nat * res (option nd));
+  o_child : option (list nat * list (nat * res (option nd))) }.
+
+Definition observe (r : res (option nd)) (s : state) : obs :=
+  mkO r (c_shape (main s)) (c_axes (main s)) (get_all (main s))
+      (option_map (fun ch => (c_shape ch, get_all ch)) (child s)).
+
+Fixpoint trace (s : state) (h : list op) : list obs :=
+  match h with
+  | [] => []
+  | o :: h' =>
+      match step s o with
+      | Ok (s', r) => observe (Ok r) s' :: trace s' h'
+      | Err x => observe (Err x) s :: trace s h'
+      end
+  end.
+
+(* ---- comparison with the recorded implementation observables *)
+Definition err_eqb (a b : err) : bool :=
+  match a, b with
+  | EValue, EValue | EKey, EKey | EIndex, EIndex | EUnsupported, EUnsupported => true
+  | _, _ => false end.
+Definition ond_eqb (a b : option nd) : bool :=
+  match a, b with Some x, Some y => nd_eqb x y | None, None => true | _, _ => false end.
+Definition res_eqb (a b : res (option nd)) : bool :=
+  match a, b with Ok x, Ok y => ond_eqb x y | Err x, Err y => err_eqb x y | _, _ => false end.
+Definition gets_eqb (a b : list (nat * res (option nd))) : bool :=
+  list_eqb (fun p q => (fst p =? fst q) && res_eqb (snd p) (snd q)) a b.
+Definition oeq {A} (eqb : A -> A -> bool) (a b : option A) : bool :=
+  match a, b with Some x, Some y => eqb x y | None, None => true | _, _ => false end.
+(* dicts are compared through lookups of the (few) axis names in use *)
+Definition axes_eqb (a b : list (nat * nat)) : bool :=
+  forallb (fun k => oeq Nat.eqb (lookup k a) (lookup k b)) (seq 0 4).
+Definition obs_eqb (a b : obs) : bool :=
+  res_eqb (o_res a) (o_res b) && shape_eqb (o_shape a) (o_shape b) && axes_eqb (o_axes a) (o_axes b)
+  && gets_eqb (o_gets a) (o_gets b)
+  && oeq (fun p q => shape_eqb (fst p) (fst q) && gets_eqb (snd p) (snd q)) (o_child a) (o_child b).
+
+Definition start (app : bool) : state := mkS (init app) None.
+Definition trace_ok (app : bool) (h : list op) (expected : list obs) : bool :=
+  list_eqb obs_eqb (trace (start app) h) expected.
+(* which calls disagree (diagnostics) *)
+Definition trace_cmp (app : bool) (h : list op) (expected : list obs) : list bool :=
+  map (fun p => obs_eqb (fst p) (snd p)) (combine (trace (start app) h) expected).
